@@ -10,7 +10,7 @@ variable {κ : Type} [DecidableEq κ]
 variable {key : Expr → κ}
 
 mutual
-theorem safe_expr (hk : Function.Injective key) :
+theorem safe_expr (hk : KeySound key) :
     ∀ (e : Expr) (Γ : TEnv) (F : Facts κ) (ρ : Env) (τ : Ty), Inv key Γ F ρ →
       infer key Γ F e = .ok τ → Good Γ.decls (eval ρ e) τ
   | .member i n, Γ, F, ρ, τ, inv, h =>
@@ -100,35 +100,35 @@ theorem safe_expr (hk : Function.Injective key) :
       obtain ⟨hx, hgen⟩ := safe_gen hk g Γ F ρ x τx inv hg
       exact all_good inv hx hgen
         (fun item hty => (safe_expr hk c (Γ.bind x τx) F (ρ.bind x item) _ (inv.bind hx hty) hc).1) hτ
-theorem safe_gen (hk : Function.Injective key) :
+theorem safe_gen (hk : KeySound key) :
     ∀ (g : Gen) (Γ : TEnv) (F : Facts κ) (ρ : Env) (x : Text) (τx : Ty), Inv key Γ F ρ →
       inferGen key Γ F g = .ok (x, τx) → Γ.find x = none ∧ GenGood Γ.decls x τx (evalGen ρ g)
   | .forEach y it, Γ, F, ρ, x, τx, inv, h =>
     forEach_good (fun ti hi => safe_expr hk it Γ F ρ ti inv hi) h
   | .forRange y a b, Γ, F, ρ, x, τx, inv, h =>
     forRange_good (fun ti hi => safe_expr hk a Γ F ρ ti inv hi) (fun ti hi => safe_expr hk b Γ F ρ ti inv hi) h
-theorem safe_and (hk : Function.Injective key) :
+theorem safe_and (hk : KeySound key) :
     ∀ (es : List Expr) (Γ : TEnv) (F : Facts κ) (ρ : Env), Inv key Γ F ρ →
       inferAnd key Γ F es = .ok () → evalAnd ρ es ≠ .noneDeref
   | [], _, _, _, _, _ => by simp [evalAnd]
   | e :: es, Γ, F, ρ, inv, h => by
     exact and_cons_ne hk inv (fun ti hi => safe_expr hk e Γ F ρ ti inv hi)
       (fun inv' h' => safe_and hk es Γ _ ρ inv' h') h
-theorem safe_or (hk : Function.Injective key) :
+theorem safe_or (hk : KeySound key) :
     ∀ (es : List Expr) (Γ : TEnv) (F : Facts κ) (ρ : Env), Inv key Γ F ρ →
       inferOr key Γ F es = .ok () → evalOr ρ es ≠ .noneDeref
   | [], _, _, _, _, _ => by simp [evalOr]
   | e :: es, Γ, F, ρ, inv, h => by
     exact or_cons_ne hk inv (fun ti hi => safe_expr hk e Γ F ρ ti inv hi)
       (fun inv' h' => safe_or hk es Γ _ ρ inv' h') h
-theorem safe_args (hk : Function.Injective key) :
+theorem safe_args (hk : KeySound key) :
     ∀ (es : List Expr) (Γ : TEnv) (F : Facts κ) (ρ : Env), Inv key Γ F ρ →
       inferArgs key Γ F es = .ok () → ArgsSafe (evalArgs ρ es)
   | [], _, _, _, _, _ => by simp [evalArgs, ArgsSafe]
   | e :: es, Γ, F, ρ, inv, h => by
     exact args_cons_safe (fun ti hi => safe_expr hk e Γ F ρ ti inv hi)
       (fun h' => safe_args hk es Γ F ρ inv h') h
-theorem safe_parts (hk : Function.Injective key) :
+theorem safe_parts (hk : KeySound key) :
     ∀ (ps : List JPart) (Γ : TEnv) (F : Facts κ) (ρ : Env), Inv key Γ F ρ →
       inferParts key Γ F ps = .ok () → evalParts ρ ps ≠ .noneDeref
   | [], _, _, _, _, _ => by simp [evalParts]
